@@ -346,6 +346,8 @@ def call_builtin(ev, name, args, kwargs, node):
         a0 = as_v(ev, args[0])
         if isinstance(a0, App) and a0.fn == name and len(a0.args) == 1:
             return a0        # list(list(x)) has the elements of list(x)
+        if name == "tuple" and _is_shape_tuple(a0):
+            return a0        # a shape (or a slice / concatenation of shapes) IS a tuple
         return App(name, (a0,))
     if name == "dict":
         d = Dct()
@@ -1000,6 +1002,21 @@ def _norm_call(ev, fn, x, loc, scale, node):
         if isinstance(x, V) and x.key in getattr(ev, "complement_keys", ()):
             ev.event("tail_cancellation", op="%s(1 - q)" % fn, arg=x, node=node, text="norm.%s(%s)" % (fn, show(x, 60)))
     return norm_fn(fn, x, as_v(ev, loc) if loc is not None else None, as_v(ev, scale) if scale is not None else None)
+
+
+def _is_shape_tuple(v, depth=0):
+    if depth > 4:
+        return False
+    if isinstance(v, Tup):
+        return True
+    if isinstance(v, App):
+        if v.fn in ("shape", "attr:shape"):
+            return True
+        if v.fn == "getitem" and len(v.args) == 2 and isinstance(v.args[1], App) and v.args[1].fn == "slice":
+            return _is_shape_tuple(v.args[0], depth + 1)
+        if v.fn in ("tupcat", "concat_tuple"):
+            return True
+    return False
 
 
 def powv_general(a, b):
